@@ -132,6 +132,7 @@ var c15Extras = []extraKV{
 	{"", "empty-key string"}, {"", ordered.MapFromItems(ordered.TupleSA{Key: "x", Value: 1})}, {"", []any{"docker#v9"}}, {"", nil},
 	{"<<", "m"}, {"1", 1}, {"true", true}, {"~", nil}, {"0x1f", 31}, {"Type", "wait"}, {"TYPE", "group"}, {"Command", "x"},
 	{"steps", []any{}}, {"timeout_in_minutes", 5}, {"soft_fail", true}, {"types", "wait"}, {"commandx", "y"}, {"wait ", nil},
+	{"-", []any{"x"}}, {"-", ordered.MapFromItems(ordered.TupleSA{Key: "x", Value: 1})}, {"-", "dash"},
 	{"async", true}, {"build", ordered.MapFromItems(ordered.TupleSA{Key: "message", Value: "m"})}, {"fields", []any{}},
 }
 
